@@ -75,6 +75,10 @@ pub struct SyncCfg {
 	/// 0: the receiver is restarted right after the reorganisation; 1: the peer announces the headers
 	/// of the new branch one by one (`Header` messages, as it would while that branch grows)
 	pub alt_mode: u32,
+	/// the serving peer answers `GetHeaders` with a few headers at a time (1-4 instead of up to 512:
+	/// a peer may send as few as it likes). A receiver that starts on a lighter branch then sees
+	/// batches of the heavier branch that carry less work than its own header head for a while.
+	pub short_batches: bool,
 }
 
 pub struct SyncOutcome {
@@ -510,6 +514,7 @@ pub fn sync_loop_run(world: &World, seed: u64, tag: &str, cfg: &SyncCfg) -> Sync
 					bump!(out.probes, "segment_frame_above_test_limit_run_abandoned");
 					break 'run;
 				}
+				let mut headers_chunks = 0u32;
 				for a in answers {
 					let an = describe(&a);
 					let ver = sp_r.get(0).map(|p| p.version).unwrap_or_else(grin_core::ser::ProtocolVersion::local);
@@ -523,6 +528,21 @@ pub fn sync_loop_run(world: &World, seed: u64, tag: &str, cfg: &SyncCfg) -> Sync
 						// never finalise a state other than the reference state. (What it does make of it: it
 						// asks for the same two segments for ever, see DESIGN 9.4 - completion is therefore not
 						// demanded of these runs.)
+						Message::Headers(mut hs) if cfg.short_batches => {
+							// (the simulated side's Codec hands a long answer over in chunks of 32: only the
+							// beginning of the first chunk travels on)
+							headers_chunks += 1;
+							if headers_chunks > 1 {
+								continue;
+							}
+							if hs.headers.len() > 1 {
+								let keep = rng.range(1, 4) as usize;
+								hs.headers.truncate(keep);
+								bump!(out.faults, "headers_answer_cut_short");
+							}
+							hs.remaining = 0;
+							Message::Headers(hs)
+						}
 						Message::OutputSegment(x) if cfg.byz_redundant && faults_on && !redundant_injected => {
 							redundant_injected = true;
 							bump!(out.faults, "answer_with_redundant_hash");
@@ -769,7 +789,11 @@ pub fn sync_loop_run(world: &World, seed: u64, tag: &str, cfg: &SyncCfg) -> Sync
 			if matches!(status, SyncStatus::NoSync) && d.head_height < wh && !faults_on && tick > 6 {
 				nosync_behind += 1;
 				if nosync_behind >= 12 && wh - d.head_height <= 5 && !sp_r.is_empty() && sp_r[0].alive {
-					if let Some(id) = path.iter().find(|i| world.blocks[**i].height == d.head_height + 1) {
+					// (the lowest block of the served chain the node does not have: a node that fell out of
+					// sync mode on a lighter branch may hold the upper blocks of the served branch as orphans
+					// and lack two at its bottom - it asks nobody for them until the difference in work
+					// exceeds the loop's threshold again)
+					if let Some(id) = path.iter().find(|i| **i != 0 && !r.chain.block_exists(world.blocks[**i].hash).unwrap_or(true)) {
 						sp_r[0].send(Type::Block, world.blocks[*id].block.clone());
 						if let Err(e) = barrier(&mut sp_r[0..1], Some(0)) {
 							result = Some(v("connection-stuck", format!("receiver, after a gossiped block at tick {}: {}", tick, e)));
@@ -991,6 +1015,7 @@ pub fn debug_run(seed: u64, mode: &str) {
 		serve_tip: None,
 		alt_tip: None,
 		alt_mode: if mode.contains("announce") { 1 } else { 0 },
+		short_batches: mode.contains("short"),
 	};
 	let mut cfg = cfg;
 	if mode.contains("grow") {
@@ -1034,7 +1059,7 @@ pub fn debug_run(seed: u64, mode: &str) {
 fn cfg_json(cfg: &SyncCfg) -> Value {
 	serde_json::json!({"prop": cfg.prop, "pre": cfg.pre, "pibd_peer": cfg.pibd_peer, "faulty": cfg.faulty, "restarts": cfg.restarts,
 		"compact_server": cfg.compact_server, "fault_ticks": cfg.fault_ticks, "serve_height": cfg.serve_height, "byz_redundant": cfg.byz_redundant,
-		"serve_tip": cfg.serve_tip, "alt_tip": cfg.alt_tip, "alt_mode": cfg.alt_mode})
+		"serve_tip": cfg.serve_tip, "alt_tip": cfg.alt_tip, "alt_mode": cfg.alt_mode, "short_batches": cfg.short_batches})
 }
 
 fn cfg_from(v: &Value) -> SyncCfg {
@@ -1051,6 +1076,7 @@ fn cfg_from(v: &Value) -> SyncCfg {
 		serve_tip: v["serve_tip"].as_u64().map(|n| n as usize),
 		alt_tip: v["alt_tip"].as_u64().map(|n| n as usize),
 		alt_mode: v["alt_mode"].as_u64().unwrap_or(0) as u32,
+		short_batches: v["short_batches"].as_bool().unwrap_or(false),
 	}
 }
 
@@ -1112,6 +1138,7 @@ pub fn runs_for_c16(world: &mut World, res: &mut crate::sim::CaseResult, seed: u
 			serve_tip: None,
 			alt_tip: None,
 			alt_mode: 0,
+			short_batches: false,
 		};
 		let rs = rr.next_u64();
 		let out = sync_loop_run(world, rs, &format!("sync16-c{}r{}", case, i), &cfg);
@@ -1144,6 +1171,7 @@ pub fn runs_for_c16(world: &mut World, res: &mut crate::sim::CaseResult, seed: u
 					serve_tip: Some(tip_a),
 					alt_tip: Some(tip_b),
 					alt_mode: (case % 2) as u32,
+					short_batches: false,
 				};
 				let rs = rr.next_u64();
 				let mut wr = world_replay.clone();
@@ -1217,7 +1245,14 @@ pub fn case_c03(tier: &str, seed: u64, case: u64) -> crate::sim::CaseResult {
 			serve_tip: None,
 			alt_tip: None,
 			alt_mode: 0,
+			short_batches: false,
 		};
+		let mut cfg = cfg;
+		// a receiver on a lighter branch always meets a peer that sends its headers a few at a time
+		cfg.short_batches = cfg.pre.iter().any(|id| !wpath.contains(id)) || i % 3 == 1;
+		if cfg.short_batches {
+			res.probe("sync_runs_with_short_header_batches");
+		}
 		if !body_only && cfg.serve_height < 30 {
 			// too short for a state sync (the archive header would be genesis)
 			res.probe("sync_run_skipped_world_too_short");
